@@ -33,15 +33,128 @@ pub fn configure(prop: &str, replay_dir: &str) {
     }
 }
 
+// Breadcrumb slots readable by the hang watchdog thread.
+use std::sync::atomic::{AtomicPtr, AtomicU64, AtomicUsize, Ordering};
+
+pub struct Slot {
+    ptr: AtomicPtr<u8>,
+    len: AtomicUsize,
+    meta: AtomicUsize, // fam << 32 | entry
+    seq: AtomicU64,
+}
+
+const NSLOTS: usize = 64;
+#[allow(clippy::declare_interior_mutable_const)]
+const EMPTY_SLOT: Slot = Slot { ptr: AtomicPtr::new(std::ptr::null_mut()), len: AtomicUsize::new(0), meta: AtomicUsize::new(0), seq: AtomicU64::new(0) };
+static SLOTS: [Slot; NSLOTS] = [EMPTY_SLOT; NSLOTS];
+static NEXT_SLOT: AtomicUsize = AtomicUsize::new(0);
+
+thread_local! {
+    static MYSLOT: Cell<usize> = const { Cell::new(usize::MAX) };
+}
+
+fn my_slot() -> Option<&'static Slot> {
+    let mut i = MYSLOT.with(|s| s.get());
+    if i == usize::MAX {
+        i = NEXT_SLOT.fetch_add(1, Ordering::SeqCst);
+        MYSLOT.with(|s| s.set(i));
+    }
+    SLOTS.get(i)
+}
+
 /// Declare the input of the monitored call about to run on this thread.
 #[inline]
 pub fn set_current(bytes: &[u8], fam: u8, entry: u32) {
     CUR.with(|c| c.set((bytes.as_ptr(), bytes.len(), fam, entry)));
+    if let Some(s) = my_slot() {
+        s.len.store(bytes.len(), Ordering::Relaxed);
+        s.meta.store(((fam as usize) << 32) | entry as usize, Ordering::Relaxed);
+        s.ptr.store(bytes.as_ptr() as *mut u8, Ordering::Release);
+        s.seq.fetch_add(1, Ordering::Release);
+    }
 }
 
 #[inline]
 pub fn clear_current() {
     CUR.with(|c| c.set((std::ptr::null(), 0, 0, 0)));
+    if let Some(s) = my_slot() {
+        s.ptr.store(std::ptr::null_mut(), Ordering::Release);
+        s.seq.fetch_add(1, Ordering::Release);
+    }
+}
+
+/// Hang watchdog: if one monitored call makes no progress for `secs` seconds, write the in-flight
+/// input as a replay file, print a HANG line and exit with status 79. The driver then re-runs that
+/// input alone under a short limit; only an input that never finishes there is reported as
+/// non-termination (wall clock alone never produces a violation).
+pub fn start_watchdog(secs: u64) {
+    std::thread::Builder::new()
+        .name("mqv-watchdog".into())
+        .spawn(move || {
+            let mut last = [0u64; NSLOTS];
+            let mut stale = [0u64; NSLOTS];
+            loop {
+                std::thread::sleep(std::time::Duration::from_secs(2));
+                for (i, s) in SLOTS.iter().enumerate() {
+                    let p = s.ptr.load(Ordering::Acquire);
+                    let q = s.seq.load(Ordering::Acquire);
+                    if p.is_null() || q != last[i] {
+                        last[i] = q;
+                        stale[i] = 0;
+                        continue;
+                    }
+                    stale[i] += 2;
+                    if stale[i] >= secs {
+                        let len = s.len.load(Ordering::Relaxed);
+                        let meta = s.meta.load(Ordering::Relaxed);
+                        hang(p, len, (meta >> 32) as u8, meta as u32);
+                    }
+                }
+            }
+        })
+        .expect("spawn watchdog");
+}
+
+fn hang(ptr: *const u8, len: usize, fam: u8, entry: u32) -> ! {
+    let prop = unsafe { cstr(&*std::ptr::addr_of!(PROP)) };
+    let dir = unsafe { cstr(&*std::ptr::addr_of!(REPLAY_DIR)) };
+    let mut path = Buf { b: [0; 8192], n: 0 };
+    path.push(dir);
+    path.push(b"/");
+    path.push(prop);
+    path.push(b"-hang-");
+    path.num(unsafe { getpid() } as usize);
+    path.push(b".replay\0");
+    let mut body = Buf { b: [0; 8192], n: 0 };
+    body.push(b"property=");
+    body.push(prop);
+    body.push(b"\nprofile=watchdog\nsig=");
+    body.push(prop);
+    body.push(b":non-termination:entry");
+    body.num(entry as usize);
+    body.push(b"\nwhat=a monitored decoder call made no progress\nkind=bytes\nfamily=");
+    body.num(fam as usize);
+    body.push(b"\nparam.entry=");
+    body.num(entry as usize);
+    body.push(b"\nbytes=");
+    let s = unsafe { std::slice::from_raw_parts(ptr, len.min(3000)) };
+    body.hex(s);
+    body.push(b"\n");
+    unsafe {
+        let fd = open(path.b.as_ptr(), 0o1101, 0o644);
+        if fd >= 0 {
+            write(fd, body.b.as_ptr(), body.n);
+            close(fd);
+        }
+        let mut line = Buf { b: [0; 8192], n: 0 };
+        line.push(b"HANG property=");
+        line.push(prop);
+        line.push(b" replay=");
+        line.push(&path.b[..path.n - 1]);
+        line.push(b"\n");
+        write(1, line.b.as_ptr(), line.n);
+        _exit(79);
+    }
 }
 
 #[inline]
